@@ -891,3 +891,21 @@ Corollary iter_tags_linear_bytes b offset lk loff c :
   bgood b ->
   ops (snd (iter_tags b offset lk loff c)) <= ops c + 2 * (flen (bs_of b) + 1).
 Proof. intros Hg. pose proof (iter_tags_linear b offset lk loff c). rewrite (fuel_of b Hg) in H. exact H. Qed.
+
+(* the hypothesis [bgood] of the per-loop theorems is what the constructor establishes *)
+Lemma bgood_of_ctor bs :
+  all_bytes bs = true ->
+  match construct_model bs with Ok f => bgood (mk_bctx f) | Err _ => True end.
+Proof.
+  intros Hb. pose proof (safe_ctor bs Hb cnt0) as H.
+  unfold construct_model, construct_gen, run.
+  destruct (fst (ctor false bs cnt0)) as [f|e]; [|exact I]. apply (bgood_mk bs); assumption.
+Qed.
+
+Lemma bgood_witness :
+  match construct_model witness_versions with Ok f => bgood (mk_bctx f) | Err _ => False end.
+Proof.
+  pose proof (bgood_of_ctor witness_versions (proj1 legacy_versions_unbounded)) as H.
+  destruct (construct_model witness_versions) as [f|e] eqn:E; [exact H|].
+  vm_compute in E. discriminate.
+Qed.
